@@ -363,6 +363,9 @@ fn phase_c(r: &Report, table: &[Codec], encs: &[Enc]) {
         .par_iter()
         .map(|e| {
             let mut l = Local::default();
+            if std::env::var("C12_TRACE").is_ok() {
+                eprintln!("[c12] mutating {} {} {}", table[e.ci].name, e.label, hex(&e.bytes[..e.bytes.len().min(40)]));
+            }
             for_each_mutant(&e.bytes, MUTATION_WINDOW, |_kind, _pos, m| {
                 judge(table, e.ci, m, "c", Some((&e.bytes, &e.repr)), &mut l);
             });
